@@ -138,10 +138,10 @@ def ns_digest(ns):
         "flow_pool": h({
             "samples": samples_bytes(getattr(fp, "samples", None)),
             "indices": list(getattr(fp, "indices", []) or []),
-            "populated": bool(fp.populated),
             "populating": bool(getattr(fp, "populating", False)),
             "r": getattr(fp, "r", None),
         }),
+        "flow_pool_populated": h(bool(fp.populated and bool(getattr(fp, "indices", [])))),
         "uninformed_pool": h({
             "samples": samples_bytes(getattr(up, "samples", None)),
             "indices": list(getattr(up, "indices", []) or []),
